@@ -102,10 +102,10 @@ type clip struct {
 }
 
 type gstate struct {
-	ctm   mat
-	clips []clip
-	fill  [3]int
-	fillA float64
+	ctm    mat
+	clips  []clip
+	fill   [3]int
+	fillA  float64
 	fillOK bool
 }
 
